@@ -15,6 +15,7 @@ import (
 	"strconv"
 	"strings"
 	"sync"
+	"sync/atomic"
 	"time"
 	"unsafe"
 
@@ -1467,13 +1468,15 @@ func c13U(c *ctx, op, rsv byte, fin, prev bool) {
 // when a context ended, and the conn must be closed.
 func c20T(c *ctx, mode string) {
 	closed := make(chan struct{})
+	var tc *c20TrackConn
 	d := ws.Dialer{NetDial: func(ctx context.Context, network, addr string) (net.Conn, error) {
 		cl, sv := net.Pipe()
 		go func() {
 			io.Copy(ioutil.Discard, sv) // ends when the client side is closed
 			close(closed)
 		}()
-		return cl, nil
+		tc = &c20TrackConn{Conn: cl}
+		return tc, nil
 	}}
 	ctx := context.Background()
 	var cancel context.CancelFunc = func() {}
@@ -1490,16 +1493,23 @@ func c20T(c *ctx, mode string) {
 		ctx, cancel = context.WithTimeout(ctx, time.Minute)
 	}
 	defer cancel()
-	type res struct{ err error }
+	type res struct {
+		err      error
+		atReturn bool
+	}
 	done := make(chan res, 1)
 	t0 := time.Now()
 	go func() {
 		_, _, _, err := d.Dial(ctx, "wss://silent.example/")
-		done <- res{err}
+		// "returns a non-nil error AFTER closing the connection": Close has been called when Dial returns (looked at in
+		// this very goroutine, before anything else can run on its behalf)
+		at := tc != nil && atomic.LoadInt32(&tc.closed) == 1
+		done <- res{err, at}
 	}()
-	out, cls, isClosed := "returned", "-", 0
+	out, cls, isClosed, atReturn := "returned", "-", 0, 0
 	select {
 	case r := <-done:
+		atReturn = b2i(r.atReturn)
 		switch {
 		case r.err == nil:
 			cls = "nil"
@@ -1522,7 +1532,18 @@ func c20T(c *ctx, mode string) {
 		out = "hang"
 	}
 	_ = t0
-	c.emit("C20T %s -> %s %s %d", mode, out, cls, isClosed)
+	c.emit("C20T %s -> %s %s %d %d", mode, out, cls, isClosed, atReturn)
+}
+
+// c20TrackConn notes that Close was called
+type c20TrackConn struct {
+	net.Conn
+	closed int32
+}
+
+func (t *c20TrackConn) Close() error {
+	atomic.StoreInt32(&t.closed, 1)
+	return t.Conn.Close()
 }
 
 // C19R: session A uses a poolable Writer (payload size a power of two) with an extension and flushing disabled,
